@@ -62,9 +62,8 @@ class require:  # pylint: disable=invalid-name
         self.enabled = enabled
         self._contract = None  # type: Optional[Contract]
 
-        if not enabled:
-            return
-
+        # The arguments of the decorator are validated even if the contract is disabled so that the misuse is
+        # reported independently of the interpreter mode (``-O``) and the environment.
         if error is None:
             pass
         elif isinstance(error, type):
@@ -87,6 +86,9 @@ class require:  # pylint: disable=invalid-name
                         "a class (subclass of BaseException) or an instance of BaseException, but got: {}"
                     ).format(error)
                 )
+
+        if not enabled:
+            return
 
         location = None  # type: Optional[str]
         tb_stack = traceback.extract_stack(limit=2)[:1]
@@ -270,9 +272,8 @@ class ensure:  # pylint: disable=invalid-name
         self.enabled = enabled
         self._contract = None  # type: Optional[Contract]
 
-        if not enabled:
-            return
-
+        # The arguments of the decorator are validated even if the contract is disabled so that the misuse is
+        # reported independently of the interpreter mode (``-O``) and the environment.
         if error is None:
             pass
         elif isinstance(error, type):
@@ -295,6 +296,9 @@ class ensure:  # pylint: disable=invalid-name
                         "a class (subclass of BaseException) or an instance of BaseException, but got: {}"
                     ).format(error)
                 )
+
+        if not enabled:
+            return
 
         location = None  # type: Optional[str]
         tb_stack = traceback.extract_stack(limit=2)[:1]
@@ -413,9 +417,8 @@ class invariant:  # pylint: disable=invalid-name
         self.enabled = enabled
         self._invariant = None  # type: Optional[Invariant]
 
-        if not enabled:
-            return
-
+        # The arguments of the decorator are validated even if the contract is disabled so that the misuse is
+        # reported independently of the interpreter mode (``-O``) and the environment.
         if error is None:
             pass
         elif isinstance(error, type):
@@ -439,17 +442,33 @@ class invariant:  # pylint: disable=invalid-name
                     ).format(error)
                 )
 
+        if inspect.iscoroutinefunction(condition):
+            raise ValueError(
+                "Async conditions are not possible in invariants as sync methods such as __init__ have to be wrapped."
+            )
+
+        condition_parameters = inspect.signature(condition).parameters
+        mandatory_args = [
+            name
+            for name, param in condition_parameters.items()
+            if param.default is inspect.Parameter.empty
+        ]
+        if mandatory_args and mandatory_args != ["self"]:
+            raise ValueError(
+                "Expected an invariant condition with at most an argument 'self', but got: {}".format(
+                    list(condition_parameters.keys())
+                )
+            )
+
+        if not enabled:
+            return
+
         location = None  # type: Optional[str]
         tb_stack = traceback.extract_stack(limit=2)[:1]
         if len(tb_stack) > 0:
             frame = tb_stack[0]
             location = "File {}, line {} in {}".format(
                 frame.filename, frame.lineno, frame.name
-            )
-
-        if inspect.iscoroutinefunction(condition):
-            raise ValueError(
-                "Async conditions are not possible in invariants as sync methods such as __init__ have to be wrapped."
             )
 
         self._invariant = Invariant(
@@ -460,15 +479,6 @@ class invariant:  # pylint: disable=invalid-name
             error=error,
             location=location,
         )
-
-        if self._invariant.mandatory_args and self._invariant.mandatory_args != [
-            "self"
-        ]:
-            raise ValueError(
-                "Expected an invariant condition with at most an argument 'self', but got: {}".format(
-                    self._invariant.condition_args
-                )
-            )
 
     def __call__(self, cls: ClassT) -> ClassT:
         """
